@@ -559,6 +559,9 @@ CATALOGUE = {
     "name-dup-case": m_dup_name("case"),
     "type-missing": m_no_type,
     "type-unknown": m_type("foo", ["foo"]),
+    "type-unknown-osm-inside": m_type("foo osm o bar", ["foo osm o bar"]),
+    "type-unknown-osm-suffix": m_type("osm o extra", ["osm o extra"]),
+    "type-select-osm-list": m_type("select_one osm o", ["select_one osm o"]),
     "select-no-list": m_type("select_one"),
     "select-missing-list": m_type("select_one zz", ["zz"], True, "not in choices sheet"),
     "selectm-missing-list": m_type("select_multiple zz", ["zz"], True, "not in choices sheet"),
